@@ -47,6 +47,8 @@ def variants():
     # self-test must notice and every user of that unit must fall back consistently -- selection may change speed only
     for tag, sym in FAULTY:
         out.append(("full_bad" + tag, full, None, sym))
+    # the work-around build for compilers without _mm_loadu_si64 (the library's BROKEN_MM_LOADU_SI64 switch): other code, same results
+    out.append(("full_loadu", full, None, None, ["-DBROKEN_MM_LOADU_SI64"]))
     return out
 
 
@@ -62,9 +64,10 @@ def build(B):
     def one(v):
         name, cpu, rm = v[0], v[1], v[2]
         faulty = v[3] if len(v) > 3 else None
-        key = ",".join(sorted(cpu)) + "|" + (faulty or "")
+        xflags = v[4] if len(v) > 4 else []
+        key = ",".join(sorted(cpu)) + "|" + (faulty or "") + "|" + " ".join(xflags)
         if key not in built:
-            objs = B.build_lib("pic", cpu=cpu, only=FILES)
+            objs = B.build_lib("pic", cpu=cpu, only=FILES, extra_flags=xflags)
             shim = B.compile_c(os.path.join(HERE, "vshim.c"), variant="pic", cpu=cpu, extra_flags=(["-DC03_FAULTY_" + faulty] if faulty else []))
             lst = sorted(objs.values()) + [shim]
             wrap = ["-Wl,--wrap=" + faulty] if faulty else []
@@ -91,7 +94,7 @@ def build(B):
 
 MANIFEST = dict(
     engine="rapidcheck + per-configuration shared objects loaded side by side (dlopen)",
-    technique="differential property testing across build/CPU configurations: the same generated input, alignment and call partition is executed by 30 copies of the library (16 build subsets, one 32-bit-only SSE4.2 build, 9 run-time feature masks, 4 builds in which one accelerated primitive computes wrongly and must be rejected by the start-up self-test) and compared bit for bit with the all-portable build",
+    technique="differential property testing across build/CPU configurations: the same generated input, alignment and call partition is executed by 31 copies of the library (16 build subsets, one 32-bit-only SSE4.2 build, 9 run-time feature masks, 4 builds in which one accelerated primitive computes wrongly and must be rejected by the start-up self-test, one build with the BROKEN_MM_LOADU_SI64 work-around) and compared bit for bit with the all-portable build",
     text="SHA-256/HMAC, CRC32C, AES block and AES-CTR are executed in one process by every configuration this host can run; any differing output bit is a "
          "violation attributed to the path that produced it. Generators aim at the per-path thresholds (CRC32C 8 bytes, AES-CTR 16 bytes), buffer "
          "alignments 0..15, padding boundaries, counter carries and partitions that switch between accelerated and portable code inside one stream. "
